@@ -26,6 +26,8 @@ def _impl_table(fracs, th):
     try:
         with warnings.catch_warnings():
             warnings.simplefilter('ignore')
+            if len(fracs) % 4 == 2:       # option values as numpy scalars
+                th = implutil.np_scalars(th)
             out = detect_bursts_amp(df, **th)
         return ['ok', proto.enc_bits(list(np.asarray(out['is_burst'].values).astype(bool)))]
     except Exception as e:
@@ -45,6 +47,12 @@ def _signal_case(c):
             warnings.simplefilter('ignore')
             df = implutil.twice(lambda: compute_features(sig, c['fs'], tuple(c['f_range']), center_extrema=c['center'], burst_method='amp',
                                                          burst_kwargs=bk, threshold_kwargs=th), [sig, bk, th], 'compute_features')
+            if th is not None and c.get('route') in (0, 1):
+                # the same settings through a Bycycle object with a history: a first fit with a LARGER min_n_cycles in the thresholds, then the
+                # requested value is written into the stored dictionary and the object is fitted again on the same array
+                dfo = implutil.object_route(sig, c['fs'], tuple(c['f_range']), c['center'], 'amp', bk, th, None, True)
+                if not (dfo['is_burst'].equals(df['is_burst']) and dfo['burst_fraction'].equals(df['burst_fraction'])):
+                    return dict(err='ObjectRouteDiffers', msg='Bycycle object with a history gives other burst fractions / labels than compute_features')
     except Exception as e:
         return dict(err=type(e).__name__, msg=str(e)[:200])
     side = 'trough' if c['center'] == 'peak' else 'peak'
